@@ -166,13 +166,16 @@ class Gen:
     sec = rng.choice([0, 1, 1, 2, 2, 3, 4, 5, 6, 8, 10, 12])
     if f == "clock":
       s = rng.choice([sec, sec, 65, 61])
+      if rng.random() < 0.03:
+        return rng.choice(["100:00:00", "01:00:00", "123:59:59"])      # hours may have more than two digits
       return "%02d:%02d:%02d" % (s // 3600, (s // 60) % 60, s % 60)
     if f == "clock-fraction":
       return "00:00:%02d.%s" % (sec, rng.choice(["5", "25", "500", "040", "001", "999", "3333", "0", "75"]))
     if f == "clock-frames":
       return "00:00:%02d:%02d" % (sec, rng.randrange(0, self.env.frame_rate))
     if f == "s":
-      return rng.choice(["%ds" % sec, "%d.5s" % sec, "%d.25s" % sec, "0.%ds" % rng.randrange(1, 10), "%d.040s" % sec, "%d.0s" % sec])
+      return rng.choice(["%ds" % sec, "%d.5s" % sec, "%d.25s" % sec, "0.%ds" % rng.randrange(1, 10), "%d.040s" % sec, "%d.0s" % sec,
+                         "%d.123456789s" % sec, "%d.0000001s" % sec])
     if f == "ms":
       return rng.choice(["%dms" % (sec * 1000), "%dms" % (sec * 1000 + 500), "40ms", "%d.5ms" % (sec * 1000 + 33), "999ms", "1ms"])
     if f == "m":
@@ -633,6 +636,10 @@ class Gen:
       root.set(rng.choice(["ittp:aspectRatio", "ttp:displayAspectRatio"]), rng.choice(["16 9", "4 3", "64 27"]))
     head = N("head")
     self.count()
+    if rng.random() < 0.06:
+      head.set("xml:lang", rng.choice(["de", "ja"]))
+    if rng.random() < 0.04:
+      head.set("xml:space", "preserve")
     styling = N("styling")
     self.count()
     if rng.random() < 0.35:
@@ -653,6 +660,8 @@ class Gen:
       head.kids.append(styling)
     layout = N("layout")
     self.count()
+    if rng.random() < 0.06:
+      layout.set("xml:lang", rng.choice(["es", "zh-Hant"]))
     nreg = rng.choice([0, 1, 1, 2, 2, 3])
     for i in range(nreg):
       layout.kids.append(self.region(i + 1))
@@ -782,7 +791,17 @@ def corrupt(rng: random.Random, root: N, pretty: bool, want_type: typing.Optiona
     r1 = copy.deepcopy(root)
     list(r1.walk())[n_i].attrs.append([name, value])
     return dict(xml=to_xml(r1, pretty), xml_removed=to_xml(root, pretty), attr=name, value=value, known=False, type="unknown-attribute",
-                shape=name.split(":")[0] if ":" in name else "no-namespace", element=nodes[n_i].tag)
+                shape=name.split(":")[0] if ":" in name else "no-namespace", element=nodes[n_i].tag, element_index=n_i)
+  if want_type == "ruby" and rng.random() < 0.6:
+    # a malformed tts:ruby ADDED to an ordinary span: ignoring it leaves the ordinary span
+    spans = [i for i, n in enumerate(nodes) if n.tag == "span" and n.get("tts:ruby") is None]
+    if spans:
+      i = rng.choice(spans)
+      value, shape = rng.choice(MALFORMED["ruby"])
+      r1 = copy.deepcopy(root)
+      list(r1.walk())[i].attrs.insert(0, ["tts:ruby", value])
+      return dict(xml=to_xml(r1, pretty), xml_removed=to_xml(root, pretty), attr="tts:ruby", value=value, known=True, type="ruby", shape=shape,
+                  element="span", element_index=i)
   cands = []
   for i, n in enumerate(nodes):
     for j, (name, _v) in enumerate(n.attrs):
@@ -801,4 +820,5 @@ def corrupt(rng: random.Random, root: N, pretty: bool, want_type: typing.Optiona
   name = n1.attrs[j][0]
   n1.attrs[j][1] = value
   del n0.attrs[j]
-  return dict(xml=to_xml(r1, pretty), xml_removed=to_xml(r0, pretty), attr=name, value=value, known=True, type=t, shape=shape, element=n1.tag)
+  return dict(xml=to_xml(r1, pretty), xml_removed=to_xml(r0, pretty), attr=name, value=value, known=True, type=t, shape=shape, element=n1.tag,
+              element_index=i)
